@@ -161,3 +161,19 @@ package compile
 //@   ensures inmap(featTree, featKey(m, n)) && forallstr(k, implies(old(inmap(featTree, k)), inmap(featTree, k)))
 //@   callsite inmap(featTree, featKey(m, n))
 //@   loop 0 invariant inmap(featTree, featKey(m, n)) && forallstr(k, implies(old(inmap(featTree, k)), inmap(featTree, k)))
+
+//@ func (*Compiler).identityCheckCyclicRef
+//@   requires c != nil && assigned != nil
+//@   modifies *
+//@   ensures !old(inmap(assigned, name))
+//@   ensures inmap(assigned, name) && forallstr(k, implies(old(inmap(assigned, k)), inmap(assigned, k)))
+//@   callsite inmap(assigned, name)
+//@   loop 0 invariant inmap(assigned, name) && forallstr(k, implies(old(inmap(assigned, k)), inmap(assigned, k)))
+
+//@ func (*Compiler).validateGrouping
+//@   requires c != nil && g != nil && group_map != nil
+//@   modifies *
+//@   ensures implies(old(inmap(group_map, node_name(g))), result != nil)
+//@   ensures forallstr(k, implies(old(inmap(group_map, k)), inmap(group_map, k)))
+//@   callsite inmap(group_map, node_name(g))
+//@   loop 0 invariant inmap(group_map, node_name(g)) && forallstr(k, implies(old(inmap(group_map, k)), inmap(group_map, k)))
